@@ -3,6 +3,7 @@ import importlib
 import json
 import os
 import random
+import re
 import shutil
 import sys
 import tempfile
@@ -370,12 +371,48 @@ IMPL_MUTANTS = [("MCDBImpl_unlockBeforeStore.cfg", "Inv_C05_Serial"), ("MCDBImpl
                 ("MCDBImpl_regDropped.cfg", "Inv_C05_RegKept"), ("MCDBImplB_unsortedLocks.cfg", "Deadlock")]
 
 
+def proof_check(name, timeout=900):
+    """TLAPS proof (unbounded constants) + TLC sanity check of the same module for small constants."""
+    import subprocess
+    src = os.path.join(core.SPEC, "proofs")
+    scratch = tempfile.mkdtemp(prefix="tlaps-")
+    t0 = time.time()
+    try:
+        for f in os.listdir(src):
+            shutil.copy(os.path.join(src, f), scratch)
+        std = "/opt/veriftools/tlapm/lib/tlapm/stdlib/TLAPS.tla"
+        if os.path.exists(std):
+            shutil.copy(std, scratch)
+        try:
+            p = subprocess.run(["tlapm", "--threads", "8", name + ".tla"], cwd=scratch, capture_output=True, text=True, timeout=timeout)
+        except (subprocess.TimeoutExpired, FileNotFoundError) as e:
+            raise MachineryError(f"tlapm {name}: {e}")
+        out = p.stdout + p.stderr
+        m = re.search(r"All (\d+) obligations? proved", out)
+        if p.returncode != 0 or not m:
+            raise MachineryError(f"proof {name}.tla is not accepted by tlapm (a defect of the proof, not of the code):\n" + out[-2000:])
+        nobl = int(m.group(1))
+        p = subprocess.run(["java", "-cp", core.TLA_CP, "tlc2.TLC", "-workers", "4", "-metadir", os.path.join(scratch, "meta"),
+                            "-config", f"MC{name}.cfg", f"MC{name}.tla"], cwd=scratch, capture_output=True, text=True, timeout=timeout)
+        if "No error has been found" not in p.stdout:
+            raise MachineryError(f"TLC sanity check of {name}.tla failed:\n" + p.stdout[-2000:])
+        ms = re.search(r"(\d+) distinct states found", p.stdout)
+        log(f"[proof] {name}.tla: {nobl} obligations proved by TLAPS; TLC sanity check {ms.group(1) if ms else '?'} states; {time.time()-t0:.1f}s")
+        return dict(module=name, cfg="TLAPS (all constants) + MC" + name + ".cfg", states=int(ms.group(1)) if ms else 0, transitions=0,
+                    wall=round(time.time() - t0, 1), obligations=nobl)
+    finally:
+        shutil.rmtree(scratch, ignore_errors=True)
+
+
 def _sched_prop(prop, rule):
     def fn(tier, seed, rng):
         quick = tier == "quick"
         design = [design_check("MCDB", "MCDBQuick.cfg" if quick else "MCDB.cfg")] + impl_design(tier, full=(prop == "C10"))
         if not quick:
             design += [dict(mutant_check("MCDBImpl", c, e), states=0, transitions=0) for c, e in IMPL_MUTANTS]
+        if prop == "C10":
+            # the lock discipline for any number of tables and writers (TLAPS)
+            design.append(proof_check("LockOrder"))
         fams = sched_families(tier, seed, rng, prop, 150, 3000, 250, 6000)
         if prop == "C05":
             fams.append(stress_family(tier, seed, prop))
